@@ -20,6 +20,7 @@ Hdr == Rec[1]
 
 SLenOf(id)   == Hdr.lens[id]
 SBucketOf(k) == k
+SReflink     == Hdr.reflink       \* FICLONE available (emulated by the tracer on this file system)
 
 VARIABLES h,        \* index of the history being explained
           loaded,   \* its initial projection has been adopted
